@@ -157,12 +157,15 @@ class SeqTensor(st.Tensor):
     """a 1-D real tensor of symbolic length whose elements are an uninterpreted
     function of the index (time grids, sample weights, ...)"""
 
-    def __init__(self, name, length, dtype=None, requires_grad=False, increasing=False, sign=1, fn=None):
+    def __init__(self, name, length, dtype=None, requires_grad=False, increasing=False, sign=1, fn=None, scale=None,
+                 shift=None):
         st.Tensor.__init__(self, "opq", ("seq", name, sign), (length,), dtype or st.float64, requires_grad=requires_grad,
                            name=name)
         self._fn = fn if fn is not None else z3.Function("seq<%s>" % name, z3.IntSort(), z3.RealSort())
         self._increasing = increasing
         self._sign = sign
+        self._scale = scale   # z3 real or None: elements are  scale * f(i) + shift
+        self._shift = shift
 
     def elem(self, i):
         ie = i.e if isinstance(i, SInt) else z3.IntVal(i)
@@ -172,16 +175,66 @@ class SeqTensor(st.Tensor):
             c.assume(self._fn(ie - 1) < self._fn(ie))
             c.assume(self._fn(ie) < self._fn(ie + 1))
         v = self._fn(ie)
-        return st.Tensor("sc", alg.Sc(v if self._sign > 0 else -v), (), self.dtype)
+        v = v if self._sign > 0 else -v
+        if self._scale is not None:
+            v = self._scale * v
+        if self._shift is not None:
+            v = v + self._shift
+        return st.Tensor("sc", alg.Sc(v), (), self.dtype)
 
     def __neg__(self):
         return SeqTensor(self.name, self._shape[0], self.dtype, increasing=False, sign=-self._sign, fn=self._fn)
+
+    def detach(self):
+        return self
+
+    def to(self, *a, **k):
+        return self
+
+    def _affine(self, scale=None, shift=None):
+        sc_ = self._scale if self._scale is not None else z3.RealVal(1)
+        sh_ = self._shift if self._shift is not None else z3.RealVal(0)
+        if scale is not None:
+            sc_, sh_ = sc_ * scale, sh_ * scale
+        if shift is not None:
+            sh_ = sh_ + shift
+        return SeqTensor(self.name, self._shape[0], self.dtype, sign=self._sign, fn=self._fn, scale=sc_, shift=sh_)
+
+    @staticmethod
+    def _scalar_of(o):
+        if isinstance(o, st.Tensor) and o.kind == "sc" and o.v.is_real() and o.single():
+            return o.v.re
+        if isinstance(o, (int, float, SReal, SInt)) and not isinstance(o, bool):
+            return core.to_real_expr(o)
+        return None
+
+    def __mul__(self, o):
+        s_ = SeqTensor._scalar_of(o)
+        return self._affine(scale=s_) if s_ is not None else st.Tensor.__mul__(self, o)
+
+    __rmul__ = __mul__
+
+    def __imul__(self, o):
+        s_ = SeqTensor._scalar_of(o)
+        if s_ is None:
+            return st.Tensor.__imul__(self, o)
+        r = self._affine(scale=s_)
+        self._scale, self._shift = r._scale, r._shift
+        return self
+
+    def __add__(self, o):
+        s_ = SeqTensor._scalar_of(o)
+        return self._affine(shift=s_) if s_ is not None else st.Tensor.__add__(self, o)
+
+    __radd__ = __add__
 
     def pv_len(self):
         return self._shape[0]
 
     def __getitem__(self, i):
         n = self._shape[0]
+        if isinstance(i, tuple) and all(x is Ellipsis for x in i):
+            return self
         if isinstance(i, int) and i < 0:
             i = n + i
         if isinstance(i, (int, SInt)):
@@ -390,3 +443,24 @@ def pb_parameter_inputs(t):
         elif u.node.name in ("add", "sub", "neg", "scale_pb", "reshape", "clone"):
             stack.extend(u.node.parents)
     return out
+
+
+
+def prove_vec(c, name, tensor, want):
+    """obligation: `tensor` is an abstract vector equal to the normal form `want` (fails structurally otherwise)"""
+    if not (isinstance(tensor, st.Tensor) and tensor.kind == "vec"):
+        if isinstance(tensor, st.Tensor) and tensor.kind == "sc" and tensor.v.is_zero() and want.is_zero():
+            return c.ok(name)
+        return c.fail(name, "result is not an abstract vector: %s" % (getattr(tensor, "kind", type(tensor).__name__),))
+    return c.prove(name, tensor.v.eq(want))
+
+
+def call_or_fail(c, name, f, exceptions=(RuntimeError, NotImplementedError, TypeError, ValueError, IndexError, AttributeError)):
+    """run library code that must not raise on this (valid) input; an exception is a failed obligation"""
+    try:
+        return True, f()
+    except OutOfSubset:
+        raise
+    except exceptions as ex:
+        c.fail(name, "raises %s: %s" % (type(ex).__name__, str(ex)[:200]))
+        return False, None
